@@ -8,6 +8,11 @@ STR_ATOMS = ["v", "foo", "bar baz", "anonymous", "http://h:1/p?q=1", "a,b", "x-y
 QUOTED_ATOMS = ["42", "true", "null", "0x1f", " lead", "a: b", "#c", "", "~", "1e3", "[x]", "{y}", "*r", "&a", "- d", "yes", "007", "-"]
 
 
+# texts of an environment variable that YAML (env.go toRealType) reads as nil: the empty text, blanks, the null words,
+# and texts YAML cannot read at all (the error is ignored). A variable with such a value still DEFINES its leaf
+NIL_TEXTS = ["", "", "null", "~", "Null", "NULL", " ", "  ", "-", "a: b", "- d"]
+
+
 def gen_atom(rng):
     r = rng.random()
     if r < 0.45:
@@ -145,6 +150,15 @@ def gen_load_case(rng, rep=3):
             d_l.append((p, v))
     rng.shuffle(e_l)
     env = [[env_name(p, rng), raw_env_value(v), v] for p, v in e_l]
+    # nil values: a variable that defines its leaf to be nil (below the top level: the top level of the probe is a struct,
+    # whose fields the decoder resets to the default); most of them for leaves file or defaults define as well.
+    # A nil addressed to a list position is the known finding C20-nil-list-element
+    defined = {p for p, _ in f_l} | {p for p, _ in d_l}
+    for k, (p, v) in enumerate(e_l):
+        if len(p) >= 2 and rng.random() < (0.12 if p in defined else 0.04):
+            env[k] = [env[k][0], rng.choice(NIL_TEXTS), None]
+    # ... and the file saying `null` at a property (never at the top level, see above)
+    f_l = [(p, None) if len(p) >= 2 and isinstance(p[-1], str) and rng.random() < 0.03 else (p, v) for p, v in f_l]
     n = len(env)
     orders = [list(range(n))]
     if n > 1:
@@ -452,15 +466,44 @@ def gen_plan(rng, cfg, mode, required=frozenset()):
     return plan
 
 
+def gen_nil_plan(rng, cfg, required=frozenset()):
+    """the complete file, and the environment defines one to three of its leaves to be nil (empty variable, null, ~):
+    the result must be the configuration without those leaves (the defaults fill them). Leaves whose name some schema
+    object requires, list elements themselves and only children are left alone (the configuration without them must
+    stay valid)."""
+    def parent(path):
+        node = cfg
+        for seg in path[:-1]:
+            node = node[seg]
+        return node
+    cands = [p for p, v in leaves(cfg)
+             if isinstance(p[-1], str) and p[-1] not in required and isinstance(parent(p), dict) and len(parent(p)) >= 2]
+    chosen = set()
+    left = {}
+    for p in rng.sample(cands, min(len(cands), rng.randint(1, 3))):
+        n = left.get(p[:-1], len(parent(p)))
+        if n >= 2:                       # at least one other member of the same parent stays
+            left[p[:-1]] = n - 1
+            chosen.add(p)
+    plan = []
+    for p, v in leaves(cfg):
+        e = {"path": list(p), "value": v, "env": False, "file": True, "file_value": v}
+        if p in chosen:
+            e["env"] = True
+            e["nil"] = rng.choice(NIL_TEXTS[:7])
+        plan.append(e)
+    return plan
+
+
 def plan_config(plan):
-    """the complete configuration a plan distributes"""
-    return build([(tuple(e["path"]), e["value"]) for e in plan])
+    """the complete configuration a plan distributes (a leaf the environment defines to be nil is not part of it)"""
+    return build([(tuple(e["path"]), e["value"]) for e in plan if "nil" not in e])
 
 
 def plan_case(plan, rng=None, rep=2):
     """the load of a plan: file part (list positions nobody gives to the file hold a placeholder of the right kind)
     and environment part"""
-    cfg = plan_config(plan)
+    cfg = build([(tuple(e["path"]), e["value"]) for e in plan])
     keep = {tuple(e["path"]) for e in plan if e["file"]}
     ftree = restrict(cfg, keep)
     fvals = {tuple(e["path"]): e["file_value"] for e in plan if e["file"]}
@@ -474,7 +517,8 @@ def plan_case(plan, rng=None, rep=2):
     envl = [e for e in plan if e["env"]]
     if rng is not None:
         rng.shuffle(envl)
-    env = [[env_name(tuple(e["path"])), raw_value(e["value"], rng, tuple(e["path"])), e["value"]] for e in envl]
+    env = [[env_name(tuple(e["path"])), e["nil"], None] if "nil" in e else
+           [env_name(tuple(e["path"])), raw_value(e["value"], rng, tuple(e["path"])), e["value"]] for e in envl]
     n = len(env)
     orders = [list(range(n))]
     if n > 1 and rng is not None:
@@ -572,8 +616,10 @@ def gen_history(rng):
 # values: every value shape for every leaf type, from the file (as the schema demands it) and from the environment
 # (plain spelling)
 
+# strings whose plain spelling YAML reads as nil, as a collection, unquoted, or cut at a comment
+NILLIKE = ["", "null", "~", "Null", " ", "-", "[]", "{}", "a: b", "#c", "a #b", "\"q\"", "'q'"]
 LEAF_VALUES = {
-    "string": NUMLIKE_FAITHFUL + NUMLIKE_RETYPED + ["abc", "x y", "-0", "5s", "1:30", "12abc", "off", "TRUE", "0o17", ".5"],
+    "string": NUMLIKE_FAITHFUL + NUMLIKE_RETYPED + ["abc", "x y", "-0", "5s", "1:30", "12abc", "off", "TRUE", "0o17", ".5"] + NILLIKE,
     "int": [0, 1, -3, 7, 4456, 100000, -1],
     "bool": [True, False],
     "text": ["5s", "250ms", "3h0m0s", "1m30s"],
@@ -597,4 +643,80 @@ def leaf_cases():
                 fcase = {"fam": "config", "op": "leaf", "rep": 2, "env": [], "file": json.dumps(build([(segs, v)]))}
                 ecase = {"fam": "config", "op": "leaf", "rep": 2, "env": [[env_name(segs), spelling(v), None]]}
                 res.append((typ, field, v, fcase, ecase))
+    return res
+
+
+# ---------------------------------------------------------------------------------------------------------------
+# values, second part: one text for one leaf, where the FILE defines the leaf (with another value), where only the
+# DEFAULTS define it, and where nothing defines it; leaves of every kind, at the top level and below list entries
+
+# texts of a variable (FILE_SAFE: the same text can stand in a YAML file at the same place)
+ENV_TEXTS = ["", "null", "~", "Null", " ", "true", "yes", "0x10", "1e3", "[]", "{}", "\"q\"", "'7'", "a #b", "x", "7",
+             "-", "a: b", "|"]
+FILE_SAFE = set(ENV_TEXTS) - {"-", "a: b", "|"}
+
+# (path of the leaf, leaf type, value the file holds there, sibling leaf the file holds as well,
+#  default of the probe: (key of the harness, value, value of the leaf))
+LEAF_SITES = [
+    (("s",), "string", "w", (("i",), 3), ("s", "ds", "ds")),
+    (("n", "s"), "string", "w", (("n", "i"), 3), ("n.s", "nd", "nd")),
+    (("p",), "string", "w", (("s",), "sib"), None),
+    (("i",), "int", 5, (("s",), "sib"), ("i", 7, 7)),
+    (("n", "i"), "int", 5, (("n", "s"), "sib"), ("n.i", 8, 8)),
+    (("b",), "bool", True, (("s",), "sib"), ("b", True, True)),
+    (("d",), "text", "7s", (("s",), "sib"), ("d", "9s", "9s")),
+    (("l", 1), "string", "w", (("l", 0), "sib"), None),                       # element of a list of scalars
+    (("e", 0, "s"), "string", "w", (("e", 0, "i"), 3), None),                 # typed member of a structure in a list
+    (("e", 1, "i"), "int", 5, (("e", 1, "s"), "sib"), None),
+    (("m", "k"), "any", "w", (("m", "z"), 3), ("m", {"k": "dk", "z": 1}, "dk")),    # member of a free-form map
+    (("m", "x", 0, "k"), "any", "w", (("m", "x", 0, "r"), 3), None),          # ... inside a list inside the map
+    (("e", 0, "c", "k"), "any", "w", (("e", 0, "c", "q"), 3), None),          # free-form map of a structure in a list
+]
+
+
+def raw_yaml(path, text, filler="w0"):
+    """a YAML file that says `text` (verbatim) at `path`; earlier list positions hold a filler"""
+    lines = []
+    ind = 0
+    dash = False
+    for k, seg in enumerate(path):
+        last = k == len(path) - 1
+        if isinstance(seg, int):
+            scalar_list = last
+            for _ in range(seg):
+                lines.append(" " * ind + ("- " + filler if scalar_list else "- {}"))
+            if last:
+                lines.append(" " * ind + "- " + text)
+            else:
+                dash = True
+        else:
+            prefix = " " * ind
+            if dash:
+                prefix = " " * (ind) + "- "
+                dash = False
+                ind += 2
+            lines.append(prefix + seg + ":" + (" " + text if last else ""))
+            ind += 2
+    return "\n".join(lines) + "\n"
+
+
+def site_cases():
+    """(site, text, {scenario: harness case}, {scenario: driver case})"""
+    res = []
+    for path, typ, other, (spath, sval), dflt in LEAF_SITES:
+        name = env_name(path)
+        ftree = build([(spath, sval), (path, other)])
+        for text in ENV_TEXTS:
+            env = [[name, text, None]]
+            ic = {"N": {"fam": "config", "op": "leaf", "rep": 2, "env": env},
+                  "F": {"fam": "config", "op": "leaf", "rep": 2, "env": env, "file": json.dumps(ftree)}}
+            if text in FILE_SAFE:
+                ic["R"] = {"fam": "config", "op": "leaf", "rep": 1, "env": [], "file": raw_yaml(path, text)}
+            if dflt is not None:
+                dd = {dflt[0]: dflt[1]}
+                ic["D"] = dict(ic["N"], defaults=dd)
+                if "R" in ic:
+                    ic["RD"] = dict(ic["R"], defaults=dd)
+            res.append({"path": list(path), "type": typ, "text": text, "other": other, "sibling": [list(spath), sval],
+                        "default": None if dflt is None else dflt[2], "file_tree": ftree, "impl": ic})
     return res
